@@ -713,6 +713,22 @@ def run(ck, C2M, WORK, drv, runcmd, cases, QUICK, layout_eval):
                           "how_to_rerun": "cd /verif && ./check C08 --replay <this file>  (gcc -shared -fPIC lib.c -o libx.so; c2m -L . -lx user.c -eg)"},
                          what=f"by-value passing `{proto_str(small)}`: {sv['fails']} locs={sv['locs']}", signature=sig)
 
+    def small_scope_protos():
+        import itertools as it
+        scs = ["char", "int", "long", "float", "double", "ldouble"]
+        aggs = []
+        for u in (False, True):
+            aggs += [("agg", u, [("p", ("sc", a))]) for a in scs]
+            aggs += [("agg", u, [("p", ("sc", a)), ("p", ("sc", b))]) for a, b in it.product(scs, repeat=2)]
+        aggs += [("agg", False, [("p", ("sc", "int")), ("p", ("agg", False, [("p", ("sc", x)), ("p", ("sc", y))]))])
+                 for x, y in it.product(["int", "float"], repeat=2)]
+        pre = [("sc", "long")] * 5 + [("sc", "double")] * 7
+        out = []
+        for t in aggs:
+            out.append((t, [t]))
+            out.append((None, pre + [t]))
+        return out, len(aggs)
+
     cps = [proto_from_str(c["proto"]) for c in cases]
     if cps:
         process(cps, "corpus")
@@ -724,5 +740,13 @@ def run(ck, C2M, WORK, drv, runcmd, cases, QUICK, layout_eval):
                 for pr in batch[:3]:
                     ck.sample({"proto": proto_str(pr)})
             process(batch, f"seed={ck.seed} pbatch={i}")
+    if not ck.replay and not QUICK:
+        sp, nagg = small_scope_protos()
+        before = stats["protos"]
+        for i in range(0, len(sp), 90):
+            process(sp[i:i + 90], f"small-scope {i}")
+        stats["small_scope"] = {"protos": stats["protos"] - before,
+                                "rule": f"all {nagg} struct/union of 1..2 members over char,int,long,float,double,long double (plus 4 nested "
+                                        "straddling structs), each as sole parameter + return value and as 13th parameter after 5 long and 7 double"}
     ck.log("passing tie:", stats)
     return stats
